@@ -26,7 +26,7 @@ def handbuilt(tier, seed):
                 + sfsgen.generate(2, 4, 2, simulate=(20000, 6), seed=seed) + sfsgen.generate(3, 5, 3, simulate=(10000, 7), seed=seed + 1)
     # deep initial stacks (the stack-cleaning part of greedy only acts on ten or more elements)
     deep = sfsgen.generate(18, 6, 2, simulate=(100, 8) if tier == "quick" else (700, 9), seed=seed + 2, minsrc=12)
-    specs += corpus.sample(deep, 6000 if tier == "quick" else 80000, seed)
+    specs += corpus.sample(deep, 6000 if tier == "quick" else 30000, seed)
     # pinned specifications (corpus/sfs/*.json): inputs on which a defect was found
     import glob, json, os
     for f in sorted(glob.glob(os.path.join(common.VERIF, "corpus", "sfs", "*.json"))):
@@ -61,12 +61,12 @@ def oracle_refinement(tier, seed):
     import denote
     pool2 = [js for _, js in sfsgen.generate(2, 2, 2)
              if sum(1 for u in js["user_instrs"] if u["disasm"] in MEMOPS) >= 2 and any(u["storage"] for u in js["user_instrs"])]
-    sel = corpus.sample(pool2, 150 if tier == "quick" else 1500, seed)
+    sel = corpus.sample(pool2, 150 if tier == "quick" else 600, seed)
     if tier != "quick":
         p3 = [js for _, js in sfsgen.generate(1, 3, 1, simulate=(400, 5), seed=seed + 3)
               if sum(1 for u in js["user_instrs"] if u["disasm"] in MEMOPS) >= 2 and any(u["storage"] for u in js["user_instrs"])]
-        sel += corpus.sample(p3, 400, seed)
-    v, goals, st, fin = denote.run_refine(sel, pick=6 if tier == "quick" else 10, timeout=600 if tier == "quick" else 2400)
+        sel += corpus.sample(p3, 200, seed)
+    v, goals, st, fin = denote.run_refine(sel, pick=6 if tier == "quick" else 8, timeout=600 if tier == "quick" else 1500)
     if v:
         k = sorted(v)[0]
         raise common.MachineryError("the two oracles disagree: SFSMachine accepts a sequence for %s whose concrete result no schedule of "
